@@ -75,6 +75,7 @@ type boundsCtx struct {
 	factMem map[*ssa.BasicBlock][]lin
 	rngBusy map[atom]bool
 	linMemo map[ssa.Value]lin
+	inlineBusy int
 	einfo   map[atom]einfo
 	fitBusy map[ssa.Value]bool
 	// substitution of parameters by caller-side terms (caller-established rule)
@@ -309,11 +310,26 @@ func (bc *boundsCtx) clobbers(in ssa.Instruction, addr ssa.Value, key string, ba
 		} else if mc, ok := cc.Value.(*ssa.MakeClosure); ok {
 			vals = append(vals, mc.Bindings...)
 		}
-		for _, a := range vals {
+		for ai, a := range vals {
 			if bc.derivedFromBase(a, base, 0) {
 				// a pointer to one field of the base cannot reach its other fields
 				if ak, ab := bc.addrKey(bc.stripToAddr(a)); ab == base && ak != fmt.Sprintf("%p", base) && !strings.HasPrefix(key, ak) && !strings.HasPrefix(ak, key) {
 					continue
+				}
+				// the base itself is passed to a module function that provably stores to other fields only
+				if g := cc.StaticCallee(); g != nil && !cc.IsInvoke() && bc.stripToAddr(a) == base && ai < len(g.Params) {
+					rel := strings.TrimPrefix(key, fmt.Sprintf("%p", base))
+					if mods, known := modFields(g, ai, 0); known {
+						hit := false
+						for m := range mods {
+							if m == rel || strings.HasPrefix(rel, m) || strings.HasPrefix(m, rel) {
+								hit = true
+							}
+						}
+						if !hit {
+							continue
+						}
+					}
 				}
 				return true
 			}
@@ -659,8 +675,54 @@ func (bc *boundsCtx) lin1(v ssa.Value) lin {
 		if a, ok := bc.pureMethodAtom(x); ok {
 			return linAtom(a)
 		}
+		if l, ok := bc.inlineCallLin(x, 0); ok {
+			return l
+		}
+	case *ssa.Extract:
+		if call, isCall := x.Tuple.(*ssa.Call); isCall {
+			if l, ok := bc.inlineCallLin(call, x.Index); ok {
+				return l
+			}
+		}
 	}
 	return linAtom(atom{kind: 'v', v: v})
+}
+
+// inlineCallLin: result idx of a call of a module function with a single return, as a linear term
+// over the caller's values: the callee's return term with arguments substituted for parameters
+// (only when every atom of it is a parameter, a length of a parameter or a quotient of such).
+func (bc *boundsCtx) inlineCallLin(call *ssa.Call, idx int) (lin, bool) {
+	if bc.inlineBusy > 2 {
+		return lin{}, false
+	}
+	g := call.Call.StaticCallee()
+	if g == nil || len(g.Blocks) == 0 || g.Pkg == nil || !inModule(g.Pkg.Pkg.Path()) || g == bc.fn || call.Call.IsInvoke() {
+		return lin{}, false
+	}
+	var ret *ssa.Return
+	for _, b := range g.Blocks {
+		if r, ok := lastInstr(b).(*ssa.Return); ok && b != g.Recover {
+			if ret != nil {
+				return lin{}, false
+			}
+			ret = r
+		}
+	}
+	if ret == nil {
+		return lin{}, false
+	}
+	rs := RetResults(ret)
+	if idx >= len(rs) {
+		return lin{}, false
+	}
+	if _, _, isInt := intInfo(rs[idx].Type(), bc.intBits); !isInt {
+		return lin{}, false
+	}
+	cb := newBoundsCtx(bc.w, g)
+	cb.inlineBusy = bc.inlineBusy + 1
+	rl := cb.lin(rs[idx])
+	// callee → caller: the reverse direction of translateLin with the roles of the contexts swapped
+	return translateLin(cb, bc, g, call, rl)
 }
 
 // noWrap: can the mathematical value of out be represented in the result type (so that machine
@@ -2148,4 +2210,122 @@ func (bc *boundsCtx) phiFacts(a atom) []lin {
 		out = append(out, (*init).add(linAtom(a), -1))
 	}
 	return out
+}
+
+// modFields: the field paths (".f3.f1" relative to parameter pi of module function g) that g, and
+// the module functions it statically calls with that pointer, may store to. known is false when
+// the pointer escapes to something that cannot be summarised (dynamic call, stored away, passed
+// to a function outside the module).
+var modMemo = map[*ssa.Function]map[int]map[string]bool{}
+
+func modFields(g *ssa.Function, pi int, depth int) (map[string]bool, bool) {
+	if len(g.Blocks) == 0 || g.Pkg == nil || !inModule(g.Pkg.Pkg.Path()) || depth > 3 || pi >= len(g.Params) {
+		return nil, false
+	}
+	if m, ok := modMemo[g]; ok {
+		if r, ok := m[pi]; ok {
+			return r, r != nil
+		}
+	} else {
+		modMemo[g] = map[int]map[string]bool{}
+	}
+	modMemo[g][pi] = nil // in progress / unknown
+	p := g.Params[pi]
+	out := map[string]bool{}
+	// values derived from p: address computations only
+	rel := map[ssa.Value]string{p: ""}
+	changed := true
+	for changed {
+		changed = false
+		for _, b := range g.Blocks {
+			for _, in := range b.Instrs {
+				if fa, ok := in.(*ssa.FieldAddr); ok {
+					if r, has := rel[fa.X]; has {
+						if _, done := rel[fa]; !done {
+							rel[fa] = fmt.Sprintf("%s.f%d", r, fa.Field)
+							changed = true
+						}
+					}
+				}
+			}
+		}
+	}
+	for _, b := range g.Blocks {
+		for _, in := range b.Instrs {
+			switch x := in.(type) {
+			case *ssa.Store:
+				if r, has := rel[x.Addr]; has {
+					if r == "" {
+						return nil, false // *p = …
+					}
+					out[r] = true
+				}
+				if _, has := rel[x.Val]; has {
+					return nil, false // the pointer is stored away
+				}
+			case ssa.CallInstruction:
+				cc := x.Common()
+				args := append([]ssa.Value{}, cc.Args...)
+				for ai, a := range args {
+					r, has := rel[a]
+					if !has {
+						continue
+					}
+					callee := cc.StaticCallee()
+					if callee == nil || cc.IsInvoke() {
+						return nil, false
+					}
+					if callee.Pkg == nil || !inModule(callee.Pkg.Pkg.Path()) {
+						return nil, false
+					}
+					sub, known := modFields(callee, ai, depth+1)
+					if !known {
+						return nil, false
+					}
+					for m := range sub {
+						out[r+m] = true
+					}
+					if len(sub) == 0 {
+						continue
+					}
+				}
+				if cc.IsInvoke() {
+					if _, has := rel[cc.Value]; has {
+						return nil, false
+					}
+				}
+				if mc, ok := cc.Value.(*ssa.MakeClosure); ok {
+					for _, bv := range mc.Bindings {
+						if _, has := rel[bv]; has {
+							return nil, false
+						}
+					}
+				}
+			case *ssa.MakeClosure:
+				for _, bv := range x.Bindings {
+					if _, has := rel[bv]; has {
+						return nil, false
+					}
+				}
+			case *ssa.MakeInterface:
+				if _, has := rel[x.X]; has {
+					return nil, false
+				}
+			case *ssa.Phi:
+				for _, e := range x.Edges {
+					if _, has := rel[e]; has {
+						return nil, false
+					}
+				}
+			case *ssa.Return:
+				for _, rv := range x.Results {
+					if _, has := rel[rv]; has {
+						return nil, false
+					}
+				}
+			}
+		}
+	}
+	modMemo[g][pi] = out
+	return out, true
 }
